@@ -368,3 +368,5 @@ _quick("C02", "C03_cancel", "(also under C03) cancel-wait naming a queued reques
 
 _quick("C05", "C05_sweeploop", "one real round of the timeout sweeper loop LockDB.checkTimeOut (hook vfSingleRound) after the clock moved on by T+1 .. T+3 seconds at once (T in 1..4), the sweeps it starts run afterwards: the wait is answered TIMEOUT by that round and the sweeper's position is the next second (symbolic executor only)", ["-witness", "0"], native=False)
 _quick("C06", "C06_sweeploop", "one real round of the expiry sweeper loop LockDB.checkExpried after the clock moved on by E+1 .. E+3 seconds at once (E in 1..4): the hold is ended with one EXPRIED by that round (symbolic executor only)", ["-witness", "0"], native=False)
+
+_quick("C14", "C14_textreply", "three LOCK / UNLOCK pairs on one text connection with COUNT in {1,2,7} and RCOUNT in {1,3,5} chosen per pair: every reply, parsed back with the real text parser, carries its own request's LockId, COUNT and RCOUNT (the first reply is built fresh, later ones reuse a cached result object)", ["-witness", "50"])
